@@ -57,6 +57,7 @@ type flushInfo struct {
 	PopCount  *ssa.Phi
 	ErrPhi    *ssa.Phi
 	RowsPhi   *ssa.Phi
+	FlushCall *ssa.Call
 	Undecided string
 }
 
@@ -207,12 +208,33 @@ func (w *World) analyseFlush() *flushInfo {
 	}
 	for _, in := range fi.Header.Instrs {
 		if phi, ok := in.(*ssa.Phi); ok {
-			switch phi.Comment {
-			case "popCount":
-				fi.PopCount = phi
-			}
 			if types.Identical(phi.Type(), types.Universe.Lookup("error").Type()) {
 				fi.ErrPhi = phi
+			}
+		}
+	}
+	// the writer's Flush call: its argument is len(collected rows) - popped rows; both are header phis
+	for _, b := range fi.Fn.Blocks {
+		for _, in := range b.Instrs {
+			c, ok := in.(*ssa.Call)
+			if !ok {
+				continue
+			}
+			sc := c.Call.StaticCallee()
+			if sc == nil || sc.Name() != "Flush" || sc.Signature.Recv() == nil || typeName(sc.Signature.Recv().Type()) != "cwriter.Writer" {
+				continue
+			}
+			fi.FlushCall = c
+			arg := w.origin(c.Call.Args[1])
+			if sub, ok := arg.(*ssa.BinOp); ok && sub.Op == token.SUB {
+				if phi, ok := w.origin(sub.Y).(*ssa.Phi); ok && phi.Block() == fi.Header {
+					fi.PopCount = phi
+				}
+				if lc, ok := w.origin(sub.X).(*ssa.Call); ok && isBuiltinCall(&lc.Call, "len") {
+					if phi, ok := lc.Call.Args[0].(*ssa.Phi); ok && phi.Block() == fi.Header {
+						fi.RowsPhi = phi
+					}
+				}
 			}
 		}
 	}
